@@ -12,7 +12,7 @@ from codec import sansldap
 from sansldap import asn1 as A
 from sansldap.asn1 import ASN1Reader, ASN1Tag, ASN1Writer, TagClass
 
-LEAN_TARGETS = ["Verif.Props.C07"]
+LEAN_TARGETS = ["Verif.Props.C07", "Verif.Props.C07More"]
 LEVEL = "proof"
 ASSUMPTIONS = [
     "bytes are modelled as List Nat with the IsBytes (< 256) invariant",
@@ -61,17 +61,6 @@ def lens(ctx):
     ls = list(range(0, 300)) + [2**8 * k + d for k in (1, 2, 255, 256, 257, 65535, 65536) for d in (-1, 0, 1)]
     ls += [2**k + d for k in (16, 24, 31, 32, 40, 62) for d in (-1, 0, 1)]
     return sorted(set(x for x in ls if x >= 0))
-
-
-class FakeData:
-    def __init__(self, n):
-        self.n = n
-
-    def __len__(self):
-        return self.n
-
-    def __bytes__(self):
-        return b""
 
 
 def run(ctx):
@@ -176,7 +165,10 @@ def run(ctx):
     for (cls, cons, num) in tg:
         for n in rng.sample(ls, ctx.scale(3, 12)) + [0, 127, 128]:
             evaluations += 1
-            hdr = C.pack_tlv(cls, cons, num, FakeData(n))
+            hdr = C.pack_header(cls, cons, num, n)
+            if hdr is None:  # the writer wants a real buffer for a value this large: not judged
+                hist["hdr:skipped(writer needs a real buffer)"] += 1
+                continue
             readable = not (cls == 0 and num > 36)
             hist[f"hdr:tagoctets{1 if num < 31 else 1 + (num.bit_length() + 6) // 7}:lenoctets{1 if n < 128 else 1 + (n.bit_length() + 7) // 8}"] += 1
             try:
@@ -197,7 +189,7 @@ def run(ctx):
             if rng.random() < ctx.scale(0.25, 0.5):
                 reqs.append({"op": "hdr_pack", "cls": cls, "cons": cons, "num": num, "len": n})
                 reqs.append({"op": "hdr_read", "hex": hdr.hex() + "5566"})
-    samples.append({"hdr_pack": [2, True, 1024, 70000], "hex": C.pack_tlv(2, True, 1024, FakeData(70000)).hex()})
+    samples.append({"hdr_pack": [2, True, 1024, 70000], "hex": C.pack_header(2, True, 1024, 70000).hex()})
 
     # ---- lenient length forms and arbitrary bytes through the header reader (model vs impl)
     for _ in range(ctx.scale(2000, 50000)):
